@@ -6,7 +6,9 @@
  * Well-formed scripts (no EXPECT_ERRS): no error is reported, the whole script is consumed, and the value produced is
  * exactly the tree the script denotes: kinds, element order, key -> value mapping with the key spelling, texts, quoted flags,
  * '?' / '.' as unknown / not-applicable.  Defect scripts: exactly the expected codes are reported, in order, and the
- * documented recovery yields EXPECT_TOP elements / entries at the top level. */
+ * documented recovery yields EXPECT_TOP elements / entries at the top level.
+ * Target (EXISTING): 0 a new value object, 1 an existing unknown value, 2 an existing value that still holds a character value
+ * (as for every packet of a loop after the first): what it held must not show through. */
 #include "vnd.h"
 #include <stdlib.h>
 #include <string.h>
@@ -100,6 +102,10 @@ void harness(void) {
     sc.handler = &H; sc.error_callback = errcb; sc.user_data = 0;
     for (i = 0; i < 160; i++) sc.char_class[i] = GENERAL_CLASS; sc.char_class[0x20] = WS_CLASS; sc.char_class[0x09] = WS_CLASS; sc.char_class[0x0a] = EOL_CLASS; sc.char_class[0x0d] = EOL_CLASS;
     if (existing) { rc = cif_value_create(CIF_UNK_KIND, &v); V_ASSUME(rc == CIF_OK); }
+    if (existing == 2) {   /* the target still holds the value parsed before it (parse_loop_packets re-uses one value object per column) */
+        UChar old[3]; old[0] = vnd_u16(); old[1] = vnd_u16(); old[2] = 0; V_ASSUME(old[0] != 0 && old[1] != 0);
+        rc = cif_value_copy_char(v, old); V_ASSUME(rc == CIF_OK);
+    }
     rc = __CPROVER_file_local_parser_c_parse_value(&sc, &v);
 #ifndef EXPECT_ERRS
     V_ASSERT(rc == CIF_OK && v != NULL, "a well-formed composite value parses");
